@@ -75,7 +75,10 @@ def oracle(P, r):
 
 
 def first_bad(M, X, mask):
-    err = np.abs(M - X) > RTOL * np.maximum(np.abs(X), 1e-12)
+    # relative tolerance per entry plus an absolute floor of 1e-9 of the largest entry (the arc of a 1e-4 rad sliver edge
+    # carries ~1e-7 relative rounding noise from the arccos of a cosine within 1e-8 of one)
+    scale = float(np.abs(X[mask]).max()) if np.any(mask) else 0.0
+    err = np.abs(M - X) > RTOL * np.maximum(np.abs(X), 1e-12) + 1e-9 * scale
     bad = np.argwhere(err & mask)
     return bad[0].tolist() if len(bad) else None
 
@@ -177,6 +180,17 @@ def cases(tier):
         for N in (6, 17, 42) + ((98, 162) if tier == "quick" else (98, 162, 200)):     # many shells / large N
             for tname, tv in MANY_SHELLS if N <= 42 else RADIALS[2:4]:
                 out.append({"alg": alg, "N": N, "t": tname, "radii_nm": tv})
+    # every ascending 4-subset of the tenths 0.1 .. 0.8 and 5-subset of 0.1 .. 0.7 as radial grid (all the coincidences a
+    # "looks equidistant" shortcut could key on: equal first and mean step, equal first and last step, ...)
+    import itertools
+    tenths = [str(F(i, 10)) for i in range(1, 9)]
+    for T_, pool in ((4, tenths), (5, tenths[:7])):
+        for combo in itertools.combinations(pool, T_):
+            vals = [str(float(F(x))) for x in combo]
+            out.append({"alg": "ico", "N": 5, "t": "[" + ", ".join(vals) + "]", "radii_nm": list(combo)})
+    # irregular direction grids far beyond the N menu (very short Voronoi edges appear for some randomS sizes)
+    for N in sorted(set(range(66, 273, 6 if tier == "quick" else 2)) | {110, 210}):
+        out.append({"alg": "randomS", "N": N, "t": "[0.1,0.2]", "radii_nm": ["0.1", "0.2"]})
     return out
 
 
